@@ -2,7 +2,7 @@
    Only the pure part is proved here: the WHERE criteria built by construct_batchload_criteria_list select exactly the
    rows whose key is one of the batch keys, in all four shapes ('=' per column, IN, row-value IN, OR of ANDs).  The rest of
    the property (merging of the fetched rows into partially loaded objects and collections) is checked differentially. *)
-Require Import PonyV.Base.PyBase PonyV.Model.C23Batch PonyV.Model.C23SetData PonyV.Gen.ContainsOrder PonyV.Proofs.C23Proofs PonyV.Proofs.C23SetProofs.
+Require Import PonyV.Base.PyBase PonyV.Model.C23Batch PonyV.Model.C23SetData PonyV.Gen.ContainsOrder PonyV.Model.C23Load PonyV.Proofs.C23Proofs PonyV.Proofs.C23SetProofs PonyV.Proofs.C23LoadProofs PonyV.Model.C23Scalar PonyV.Proofs.C23ScalarProofs.
 
 Theorem C23_batch_criteria : forall (args : list (list Z)) (row : nat -> Z) (ncols start : nat) (keys : list (list Z)),
   (forall i, (i < length keys)%nat -> nth (i + start) args [] = nth i keys []) ->     (* the batch occupies args[start ..] *)
@@ -22,6 +22,105 @@ Print Assumptions C23_contains_after_add.
 Theorem C23_contains_after_remove : forall sd x, contains_local contains_checks (sd_remove sd x) x <> Some true.
 Proof. exact contains_after_remove. Qed.
 Print Assumptions C23_contains_after_remove.
+
+(* ---------------------------------------------------------------- the collection core (Model/C23Load.v)
+   rows = the link rows of the owner in the database, sd = its SetData; abstract rows sd = rows minus pending removals plus
+   pending additions = what the program must see.  Inv rows sd = the SetData is consistent with the rows (checked as inv_b on
+   every recorded real state by the correspondence run; inv_b implies Inv). *)
+
+(* every loading path keeps the SetData consistent and does not change the abstract collection: a whole-collection load
+   (Set.load, and what each member of an nplus1 batch or of prefetch_load_all receives), a load of just the asked items, a flush *)
+Theorem C23_load_full : forall rows sd, Inv rows sd ->
+  Inv rows (load_full rows sd) /\ abstract rows (load_full rows sd) = abstract rows sd /\
+  (forall x, In x (sd_items (load_full rows sd)) <-> In x (abstract rows sd)).
+Proof. exact load_full_spec. Qed.
+Print Assumptions C23_load_full.
+
+(* a batch gives every collection ITS OWN rows and ITS OWN count *)
+Theorem C23_load_batch : forall batch,
+  (forall rs, In rs batch -> Inv (fst rs) (snd rs)) ->
+  forall rs, In rs batch ->
+    In (load_full (fst rs) (snd rs)) (load_batch batch) /\
+    Inv (fst rs) (load_full (fst rs) (snd rs)) /\
+    sd_count (load_full (fst rs) (snd rs)) = Some (length (abstract (fst rs) (snd rs))).
+Proof. exact load_batch_own. Qed.
+Print Assumptions C23_load_batch.
+
+Theorem C23_load_items : forall rows xs sd, NoDup xs -> Inv rows sd ->
+  Inv rows (load_for rows xs sd) /\ abstract rows (load_for rows xs sd) = abstract rows sd.
+Proof. exact load_items_spec. Qed.
+Print Assumptions C23_load_items.
+
+Theorem C23_flush : forall rows sd, Inv rows sd ->
+  Inv (flush_rows rows sd) (flush_sd sd) /\ abstract (flush_rows rows sd) (flush_sd sd) = abstract rows sd.
+Proof. exact flush_spec. Qed.
+Print Assumptions C23_flush.
+
+(* what the program observes is a function of the abstract collection (and the state stays consistent) *)
+Theorem C23_iteration_len : forall rows sd, Inv rows sd ->
+  let r := do_copy rows sd in
+  same_set (fst r) (abstract rows sd) /\ length (fst r) = length (abstract rows sd) /\
+  Inv (fst (snd r)) (snd (snd r)) /\ abstract (fst (snd r)) (snd (snd r)) = abstract rows sd.
+Proof. exact do_copy_spec. Qed.
+Print Assumptions C23_iteration_len.
+
+Theorem C23_count : forall rows sd, Inv rows sd ->
+  let r := do_count rows sd in
+  fst r = length (abstract rows sd) /\ Inv rows (snd r) /\ abstract rows (snd r) = abstract rows sd.
+Proof. exact do_count_spec. Qed.
+Print Assumptions C23_count.
+
+Theorem C23_contains : forall x rows sd, Inv rows sd ->
+  let r := do_contains x rows sd in
+  (fst r = true <-> In x (abstract rows sd)) /\ Inv (fst (snd r)) (snd (snd r)) /\
+  abstract (fst (snd r)) (snd (snd r)) = abstract rows sd.
+Proof. exact do_contains_spec. Qed.
+Print Assumptions C23_contains.
+
+Theorem C23_is_empty : forall first rows sd,
+  (forall l r, first l = Some r -> In r l) -> (forall l, first l = None -> l = []) ->
+  Inv rows sd ->
+  let r := do_is_empty first rows sd in
+  (fst r = true <-> abstract rows sd = []) /\ Inv (fst (snd r)) (snd (snd r)) /\
+  same_set (abstract (fst (snd r)) (snd (snd r))) (abstract rows sd).
+Proof. exact do_is_empty_spec. Qed.
+Print Assumptions C23_is_empty.
+
+(* add / remove (with their internal loads) change the abstract collection by exactly that item *)
+Theorem C23_add : forall x rows sd, Inv rows sd ->
+  Inv rows (do_add x rows sd) /\ (forall y, In y (abstract rows (do_add x rows sd)) <-> In y (abstract rows sd) \/ y = x).
+Proof. exact do_add_spec. Qed.
+Print Assumptions C23_add.
+
+Theorem C23_remove : forall x rows sd, Inv rows sd ->
+  Inv rows (do_remove x rows sd) /\ (forall y, In y (abstract rows (do_remove x rows sd)) <-> In y (abstract rows sd) /\ y <> x).
+Proof. exact do_remove_spec. Qed.
+Print Assumptions C23_remove.
+
+(* hence: two consistent views of the same abstract collection, whatever loading paths (and flushes) produced them, give the
+   same iteration contents, len, count, membership answers and is_empty *)
+Theorem C23_collection_path_independent : forall first rows1 sd1 rows2 sd2 x,
+  (forall l r, first l = Some r -> In r l) -> (forall l, first l = None -> l = []) ->
+  Inv rows1 sd1 -> Inv rows2 sd2 -> same_set (abstract rows1 sd1) (abstract rows2 sd2) ->
+  same_set (fst (do_copy rows1 sd1)) (fst (do_copy rows2 sd2)) /\
+  length (fst (do_copy rows1 sd1)) = length (fst (do_copy rows2 sd2)) /\
+  fst (do_count rows1 sd1) = fst (do_count rows2 sd2) /\
+  fst (do_contains x rows1 sd1) = fst (do_contains x rows2 sd2) /\
+  fst (do_is_empty first rows1 sd1) = fst (do_is_empty first rows2 sd2).
+Proof. exact observations_path_independent. Qed.
+Print Assumptions C23_collection_path_independent.
+
+Theorem C23_checked_invariant : forall rows sd, inv_b rows sd = true -> Inv rows sd.
+Proof. exact inv_b_Inv. Qed.
+Print Assumptions C23_checked_invariant.
+
+(* scalar attributes (Model/C23Scalar.v): after any sequence of row merges -- the object's own query, a seed batch, prefetch, lazy
+   loads of other attributes -- a read returns the value written in this session, else the database value; lazy or not *)
+Theorem C23_scalar_read : forall db lazy others a (loads : list (list nat)) o, sinv db o ->
+  let o' := fold_left (fun acc attrs => db_set db attrs acc) loads o in
+  fst (read db lazy others a o') = expected db o a.
+Proof. exact read_after_loads. Qed.
+Print Assumptions C23_scalar_read.
 
 Example C23_nonvacuous :
   sem_all [[1; 2]; [3; 4]; [5; 6]]%Z (fun j => match j with O => 5 | _ => 6 end)%Z (construct 2 2 1 false) = true /\
